@@ -3,13 +3,31 @@ import ast
 import functools
 import sys
 import textwrap
+import threading
 import warnings
 from contextlib import contextmanager
 from typing import TYPE_CHECKING, Callable, Generator, List, Optional
 
 
-class FastAst:
-    _LOCATION_OF_NODE: Optional[ast.AST] = None
+class _LocationContext(threading.local):
+    # per thread: two threads instrumenting code at the same time must not see each other's node
+    node: Optional[ast.AST] = None
+
+
+class _FastAstMeta(type):
+    @property
+    def _LOCATION_OF_NODE(cls) -> Optional[ast.AST]:
+        return _location_context.node
+
+    @_LOCATION_OF_NODE.setter
+    def _LOCATION_OF_NODE(cls, node: Optional[ast.AST]) -> None:
+        _location_context.node = node
+
+
+_location_context = _LocationContext()
+
+
+class FastAst(metaclass=_FastAstMeta):
 
     if TYPE_CHECKING:
 
